@@ -65,6 +65,10 @@ type msgCase struct {
 	// Root lets the reference encoder also end names in a pointer to an earlier root terminator
 	// (a prior occurrence of the empty suffix).
 	Root bool `json:"root_pointers,omitempty"`
+	// What the caller leaves in the four header counts (QD, AN, NS, AR) when handing the message to
+	// Encode: nil = zero (the plain struct literal), otherwise these values - the section lengths or
+	// stale numbers. Encode takes the counts from the slices, so it must not matter.
+	Counts *[4]uint16 `json:"header_counts_field,omitempty"`
 }
 
 func (n jName) ref() dns.Name {
@@ -121,12 +125,16 @@ func (c msgCase) lib() *llmnr.Message {
 		return out
 	}
 	m.Answers, m.Authority, m.Additional = conv(c.Answers), conv(c.Authority), conv(c.Additional)
+	if c.Counts != nil {
+		m.QDCount, m.ANCount, m.NSCount, m.ARCount = c.Counts[0], c.Counts[1], c.Counts[2], c.Counts[3]
+	}
 	return m
 }
 
 // libCounted is lib() with the four header counts filled in by the caller, as Message.Validate
-// wants them. (lib() itself leaves them zero: the encoder takes the counts from the slices. Whether
-// Encode also stores them in the caller's struct is not something the property speaks about.)
+// wants them. (lib() itself leaves them zero or as the case says, stale values included: the encoder
+// takes the counts from the slices. Whether Encode also stores them in the caller's struct is not
+// something the property speaks about.)
 func (c msgCase) libCounted() *llmnr.Message {
 	m := c.lib()
 	m.QDCount, m.ANCount, m.NSCount, m.ARCount = uint16(len(m.Questions)), uint16(len(m.Answers)), uint16(len(m.Authority)), uint16(len(m.Additional))
@@ -244,9 +252,10 @@ func compareRef(who string, got *dns.Message, c msgCase) []vf.Finding {
 
 // generators of the per-byte draws, built once (constructing one per draw dominated the run time)
 var (
-	gLabLenClass = rapid.IntRange(0, 4)
+	gLabLenClass = rapid.IntRange(0, 5)
 	gLabEdge     = rapid.SampledFrom([]int{1, 62, 63})
 	gLabLen      = rapid.IntRange(1, 12)
+	gLabAny      = rapid.IntRange(1, 63)
 	gByteClass   = rapid.IntRange(0, 3)
 	gByte        = rapid.Byte()
 	gAlpha       = rapid.IntRange('a', 'z')
@@ -257,6 +266,8 @@ func genLabel(t *rapid.T) vf.Hex {
 	switch gLabLenClass.Draw(t, "labLenClass") {
 	case 0:
 		n = gLabEdge.Draw(t, "labEdge")
+	case 1:
+		n = gLabAny.Draw(t, "labAny") // every length a label can have
 	default:
 		n = gLabLen.Draw(t, "labLen")
 	}
@@ -275,8 +286,35 @@ func genLabel(t *rapid.T) vf.Hex {
 	return b
 }
 
-// genName draws 0..6 labels with total wire length <= 255; names from pool are
-// reused so that compression has something to point at.
+// genManyLabels draws a name of many short labels, up to the most a name can have: 127 labels of
+// one octet are 255 octets on the wire. Half of the draws have 100..127 labels, the others 7..127;
+// about one label in eight has two octets, as far as the 255 octets allow. The label bytes come from
+// one slice draw (a draw per byte would make these names cost ten times an ordinary one).
+func genManyLabels(t *rapid.T) jName {
+	k := rapid.IntRange(7, 127).Draw(t, "manyLabels")
+	if rapid.Bool().Draw(t, "manyNearLimit") {
+		k = rapid.IntRange(100, 127).Draw(t, "manyLabelsHigh")
+	}
+	raw := rapid.SliceOfN(gByte, 2*k, 2*k).Draw(t, "manyBytes")
+	for i := range raw {
+		if raw[i] == '.' {
+			raw[i] = '-'
+		}
+	}
+	n := make(jName, 0, k)
+	room := 255 - 1 - 2*k // octets left once every label has one octet
+	for i := 0; i < k; i++ {
+		l := 1
+		if room > 0 && raw[2*i+1]&7 == 0 {
+			l, room = 2, room-1
+		}
+		n = append(n, vf.Hex(raw[2*i:2*i+l:2*i+l]))
+	}
+	return n
+}
+
+// genName draws 0..6 labels with total wire length <= 255 (one fresh name in 40: up to 127 short
+// labels, genManyLabels); names from pool are reused so that compression has something to point at.
 func genName(t *rapid.T, pool *[]jName) jName {
 	if len(*pool) > 0 && rapid.IntRange(0, 2).Draw(t, "reuse") == 0 {
 		base := (*pool)[rapid.IntRange(0, len(*pool)-1).Draw(t, "poolIdx")]
@@ -297,6 +335,11 @@ func genName(t *rapid.T, pool *[]jName) jName {
 			}
 			return base
 		}
+	}
+	if rarely(t, "many", 5) {
+		n := genManyLabels(t)
+		*pool = append(*pool, n)
+		return n
 	}
 	k := rapid.IntRange(0, 6).Draw(t, "labels")
 	if rapid.IntRange(0, 19).Draw(t, "max") == 0 {
@@ -427,7 +470,36 @@ func genMsg(t *rapid.T, maxRData int) msgCase {
 		return out
 	}
 	c.Answers, c.Authority, c.Additional = sec("nan", 1), sec("nns", 2), sec("nar", 3)
+	c.Counts = genCountsField(t, [4]int{len(c.Questions), len(c.Answers), len(c.Authority), len(c.Additional)})
 	return c
+}
+
+// genCountsField: what the caller leaves in the four header counts (see msgCase.Counts) - zero, the
+// section lengths, or stale values: each count on its own right, off by one, or any 16-bit number.
+func genCountsField(t *rapid.T, lens [4]int) *[4]uint16 {
+	var v [4]uint16
+	switch rapid.IntRange(0, 3).Draw(t, "countsField") {
+	case 0, 1:
+		return nil
+	case 2:
+		for i, n := range lens {
+			v[i] = uint16(n)
+		}
+	default:
+		for i, n := range lens {
+			switch rapid.IntRange(0, 3).Draw(t, "countStale") {
+			case 0:
+				v[i] = uint16(n)
+			case 1:
+				v[i] = uint16(n + 1)
+			case 2:
+				v[i] = uint16(n - 1)
+			default:
+				v[i] = rapid.Uint16().Draw(t, "countAny")
+			}
+		}
+	}
+	return &v
 }
 
 func nontrivial(c msgCase) bool {
@@ -454,8 +526,15 @@ func classify(s *vf.Sub, c msgCase) {
 	if len(c.Questions) > 255 || len(c.Answers) > 255 || len(c.Authority) > 255 || len(c.Additional) > 255 {
 		s.Class("section-over-255-entries")
 	}
+	if c.Counts != nil && *c.Counts != [4]uint16{uint16(len(c.Questions)), uint16(len(c.Answers)), uint16(len(c.Authority)), uint16(len(c.Additional))} {
+		s.Class("header-count-fields-not-the-section-lengths")
+	}
+	for _, q := range c.Questions {
+		classifyName(s, q.Name)
+	}
 	for _, sec := range [][]jRR{c.Answers, c.Authority, c.Additional} {
 		for _, r := range sec {
+			classifyName(s, r.Name)
 			n := len(r.RData) + r.Pad
 			if n >= 32768 {
 				s.Class("rdata>=32768")
@@ -466,6 +545,24 @@ func classify(s *vf.Sub, c msgCase) {
 			if r.RDLenField != nil && int(*r.RDLenField) != n {
 				s.Class("rdlength-field-not-len(rdata)")
 			}
+		}
+	}
+}
+
+func classifyName(s *vf.Sub, n jName) {
+	if len(n) > 100 {
+		s.Class("name-of-over-100-labels")
+	}
+	if len(n) == 127 {
+		s.Class("name-of-127-labels")
+	}
+	if n.ref().WireLen() == 255 {
+		s.Class("name-of-255-octets")
+	}
+	for _, l := range n {
+		if len(l) > 12 && len(l) < 62 {
+			s.Class("label-of-13..61-octets")
+			break
 		}
 	}
 }
@@ -653,6 +750,64 @@ func TestCompressionRoot(t *testing.T) {
 		classifyPointers(s, st)
 		return checkLibParsesWire(c, wire)
 	}, func(c msgCase) bool { return st.RootPointers > 0 })
+}
+
+// ---- the bytes Encode returns are a value of their own ---------------------------------------------
+
+type twoMsgCase struct {
+	First  msgCase `json:"first"`
+	Second msgCase `json:"second"`
+}
+
+// checkEncodeIndependent: the caller keeps the bytes of one Encode while another message is encoded
+// (a responder answering two queries, a sender queueing packets): the kept bytes still are the
+// encoding of the first message - unchanged, and decoding to the first message's content.
+func checkEncodeIndependent(c twoMsgCase) []vf.Finding {
+	w1, err := c.First.lib().Encode()
+	if err != nil {
+		return []vf.Finding{vf.F("Message.Encode", "valid-message-rejected", "%v", err)}
+	}
+	saved := append([]byte{}, w1...)
+	w2, err := c.Second.lib().Encode()
+	if err != nil {
+		return []vf.Finding{vf.F("Message.Encode", "valid-message-rejected", "second message: %v", err)}
+	}
+	var fs []vf.Finding
+	if !bytes.Equal(w1, saved) {
+		fs = append(fs, vf.F("Message.Encode", "earlier-result-overwritten-by-next-encode", "the %d bytes returned for the first message changed when a second message (%d bytes) was encoded", len(saved), len(w2)))
+	}
+	got, err := llmnr.DecodeMessage(w1)
+	if err != nil {
+		return append(fs, vf.F("llmnr.DecodeMessage", "own-encoding-rejected", "first message, decoded after the second was encoded: %v (wire %d bytes)", err, len(w1)))
+	}
+	fs = append(fs, compareLib("DecodeMessage(first Encode result, after a second Encode)", got, c.First)...)
+	// and the other way round: the second result is the second message, whatever the first left behind
+	got2, err := llmnr.DecodeMessage(w2)
+	if err != nil {
+		return append(fs, vf.F("llmnr.DecodeMessage", "own-encoding-rejected", "second message: %v (wire %d bytes)", err, len(w2)))
+	}
+	return append(fs, compareLib("DecodeMessage(second Encode result)", got2, c.Second)...)
+}
+
+func TestEncodeIndependent(t *testing.T) {
+	s := vf.Begin(t, P, "encode-results-independent")
+	vf.Rapid(s, vf.N(5000, 60000), func(t *rapid.T) twoMsgCase {
+		c := twoMsgCase{First: genMsg(t, 64)}
+		// the second message: another draw or, one time in three, the first with a few fields changed
+		// (same length on the wire, different content)
+		if rapid.IntRange(0, 2).Draw(t, "secondKind") == 0 {
+			c.Second = c.First
+			c.Second.ID ^= rapid.Uint16Range(1, 0xFFFF).Draw(t, "idFlip")
+			c.Second.Flags = rapid.Uint16().Draw(t, "flags2")
+			c.Second.Answers = append([]jRR{}, c.First.Answers...)
+			for i := range c.Second.Answers {
+				c.Second.Answers[i].TTL ^= rapid.Uint32().Draw(t, "ttlFlip")
+			}
+		} else {
+			c.Second = genMsg(t, 64)
+		}
+		return c
+	}, checkEncodeIndependent, func(c twoMsgCase) bool { return nontrivial(c.First) || nontrivial(c.Second) })
 }
 
 // ---- RDATA length limits ---------------------------------------------------------------------
@@ -980,6 +1135,315 @@ func TestBadPointerRejected(t *testing.T) {
 		}
 		return c
 	}, checkBadPointer, func(c ptrCase) bool { return len(c.Prefix) > 0 })
+}
+
+// ---- illegal pointers at the second and later hops --------------------------------------------
+
+// A name may reach its end through several pointers. Each of them has to point strictly backwards:
+// before the start of the part of the name it ends (RFC 1035 4.1.4 "a prior occurrence"). The
+// cases here follow one or more legal hops and then meet a pointer that points at itself, at the
+// start or into the part being read, forwards to a later place - visited before (a cycle) or not -,
+// at the name under test or past the end of the packet. The places the name hops through lie in the
+// RDATA of an earlier record (where compressed names live in real packets: PTR, CNAME, SRV targets),
+// all of them below the name under test, so that a decoder which only compares pointers with the
+// start of the first name sees nothing wrong. Must be rejected, and decoding must terminate.
+
+type hopNode struct {
+	Labels jName `json:"labels"`
+	To     int   `json:"back_to"` // -1: ends in the zero octet; otherwise in a pointer to node To (< own index)
+}
+
+type hopCase struct {
+	Nodes   []hopNode `json:"nodes"` // in wire order
+	Prefix  jName     `json:"labels_before_pointer"`
+	Entry   int       `json:"entry_node"` // the node the name under test points at
+	BadPos  int       `json:"bad_hop"`    // position on the walk (0 = the entry node) of the node given the illegal pointer
+	Kind    string    `json:"kind"`       // self, at-pointer, into-current, forward-node, cycle, name, beyond-end
+	Delta   int       `json:"delta"`
+	Section string    `json:"section"` // of the record under test: answer, authority, additional
+	Lead    bool      `json:"question_first"`
+}
+
+// walk: the nodes the name under test passes through, in order.
+func (c hopCase) walk() []int {
+	var w []int
+	for i := c.Entry; i >= 0 && len(w) <= len(c.Nodes); i = c.Nodes[i].To {
+		w = append(w, i)
+	}
+	return w
+}
+
+// wire builds the packet; with bad set, the node at walk position BadPos ends in the illegal pointer.
+// It returns the offset of the name under test and the illegal pointer's target.
+func (c hopCase) wire(bad bool) (b []byte, nameStart, target int) {
+	w := c.walk()
+	pos := c.BadPos % len(w)
+	badNode := -1
+	if bad {
+		badNode = w[pos]
+	}
+	an, ns, ar := 2, 0, 0
+	switch c.Section {
+	case "authority":
+		an, ns = 1, 1
+	case "additional":
+		an, ar = 1, 1
+	}
+	b = []byte{0x12, 0x34, 0x80, 0, 0, 0, 0, byte(an), 0, byte(ns), 0, byte(ar)}
+	if c.Lead {
+		b[5] = 1
+		b = append(b, 4, 'l', 'e', 'a', 'd', 0, 0, 1, 0, 1)
+	}
+	// first record: root name, TXT, RDATA = the nodes
+	b = append(b, 0, 0, 16, 0, 1, 0, 0, 0, 30, 0, 0)
+	area := len(b)
+	start := make([]int, len(c.Nodes)+1)
+	ptrAt := make([]int, len(c.Nodes))
+	at := area
+	for i, n := range c.Nodes {
+		start[i] = at
+		for _, l := range n.Labels {
+			at += 1 + len(l)
+		}
+		ptrAt[i] = at
+		if n.To < 0 && i != badNode {
+			at++
+		} else {
+			at += 2
+		}
+	}
+	b[area-2], b[area-1] = byte((at-area)>>8), byte(at-area)
+	// second record starts where the nodes end
+	nameStart = at
+	nameLen := 2
+	for _, l := range c.Prefix {
+		nameLen += 1 + len(l)
+	}
+	if bad {
+		s0 := start[badNode]
+		switch c.Kind {
+		case "self":
+			target = s0
+		case "at-pointer":
+			target = ptrAt[badNode]
+		case "into-current":
+			target = s0 + c.Delta%(ptrAt[badNode]-s0+1)
+		case "forward-node":
+			if badNode == len(c.Nodes)-1 {
+				target = nameStart
+			} else {
+				target = start[badNode+1+c.Delta%(len(c.Nodes)-1-badNode)]
+			}
+		case "cycle":
+			target = start[w[c.Delta%(pos+1)]]
+		case "name":
+			target = nameStart + c.Delta%nameLen
+		default: // beyond-end
+			target = 0x3FFF - c.Delta%8
+		}
+	}
+	ptr := func(to int) { b = append(b, 0xC0|byte(to>>8), byte(to)) }
+	for i, n := range c.Nodes {
+		for _, l := range n.Labels {
+			b = append(b, byte(len(l)))
+			b = append(b, l...)
+		}
+		switch {
+		case i == badNode:
+			ptr(target)
+		case n.To < 0:
+			b = append(b, 0)
+		default:
+			ptr(start[n.To])
+		}
+	}
+	for _, l := range c.Prefix {
+		b = append(b, byte(len(l)))
+		b = append(b, l...)
+	}
+	ptr(start[c.Entry])
+	b = append(b, 0, 1, 0, 1, 0, 0, 0, 30, 0, 4, 1, 2, 3, 4)
+	return
+}
+
+// libName: the name of the record under test (the last one of its section) in a decoded message.
+func (c hopCase) libName(m *llmnr.Message) (string, bool) {
+	sec := m.Answers
+	switch c.Section {
+	case "authority":
+		sec = m.Authority
+	case "additional":
+		sec = m.Additional
+	}
+	if len(sec) == 0 {
+		return "", false
+	}
+	return sec[len(sec)-1].Name, true
+}
+
+func checkLaterHop(s *vf.Sub) func(c hopCase) []vf.Finding {
+	return func(c hopCase) []vf.Finding {
+		w := c.walk()
+		if len(w) > 1+c.BadPos%len(w) {
+			s.Class("illegal-pointer-followed-by-legal-nodes")
+		}
+		if c.BadPos%len(w) >= 1 {
+			s.Class("illegal-pointer-at-third-hop-or-later")
+		}
+		// the legal packet first: several hops, labels on the way; must decode to the name the reference reads
+		legal, start, _ := c.wire(false)
+		ref, err := dns.Parse(legal)
+		if err != nil {
+			return []vf.Finding{vf.F("harness", "reference-codec-rejects-legal-chain", "%v: %x", err, legal)}
+		}
+		want := jName{}
+		for _, l := range c.Prefix {
+			want = append(want, l)
+		}
+		for _, i := range w {
+			want = append(want, c.Nodes[i].Labels...)
+		}
+		refRecs := [][]dns.RR{ref.Answers, ref.Authority, ref.Additional}[map[string]int{"answer": 0, "authority": 1, "additional": 2}[c.Section]]
+		if len(refRecs) == 0 || key(refRecs[len(refRecs)-1].Name) != key(want.ref()) {
+			return []vf.Finding{vf.F("harness", "reference-codec-misreads-legal-chain", "%x", legal)}
+		}
+		var msg *llmnr.Message
+		if !vf.WithTimeout(10*time.Second, func() { msg, err = llmnr.DecodeMessage(legal) }) {
+			return []vf.Finding{vf.F("llmnr.DecodeMessage", "does-not-terminate", "legal chain of %d hops: %x", len(w), legal)}
+		}
+		if err != nil {
+			return []vf.Finding{vf.F("llmnr.DecodeMessage", "backward-pointer-chain-rejected", "%d hops: %v: %x", len(w), err, legal)}
+		}
+		if got, ok := c.libName(msg); !ok || !sameName(got, want) {
+			return []vf.Finding{vf.F("llmnr.DecodeMessage", "backward-pointer-chain-misread", "%d hops: got %q want %q: %x", len(w), got, want.text(), legal)}
+		}
+		// now with the illegal pointer
+		wire, start, target := c.wire(true)
+		if target < start {
+			s.Class("illegal-target-below-the-name-under-test")
+		}
+		if _, err := dns.Parse(wire); err == nil {
+			return []vf.Finding{vf.F("harness", "generated-pointer-is-legal", "%s -> %d: %x", c.Kind, target, wire)}
+		}
+		if !vf.WithTimeout(10*time.Second, func() { msg, err = llmnr.DecodeMessage(wire) }) {
+			return []vf.Finding{vf.F("llmnr.DecodeMessage", "does-not-terminate", "hop %d: pointer %s -> %d (name under test at %d): %x", 2+c.BadPos%len(w), c.Kind, target, start, wire)}
+		}
+		if err == nil {
+			got, _ := c.libName(msg)
+			return []vf.Finding{vf.F("llmnr.DecodeMessage", "non-backward-pointer-accepted", "hop %d: pointer %s -> %d (name under test at %d) decoded as %q: %x", 2+c.BadPos%len(w), c.Kind, target, start, got, wire)}
+		}
+		// the standalone name decoder has to agree
+		var name string
+		if !vf.WithTimeout(10*time.Second, func() { name, _, err = llmnr.DecodeDomainName(wire, start) }) {
+			return []vf.Finding{vf.F("llmnr.DecodeDomainName", "does-not-terminate", "hop %d: pointer %s -> %d (name under test at %d): %x", 2+c.BadPos%len(w), c.Kind, target, start, wire)}
+		}
+		if err == nil {
+			return []vf.Finding{vf.F("llmnr.DecodeDomainName", "non-backward-pointer-accepted", "hop %d: pointer %s -> %d (name under test at %d) decoded as %q", 2+c.BadPos%len(w), c.Kind, target, start, name)}
+		}
+		return nil
+	}
+}
+
+func key(n dns.Name) string {
+	var b []byte
+	for _, l := range n {
+		b = append(b, byte(len(l)))
+		b = append(b, l...)
+	}
+	return string(b)
+}
+
+var hopKinds = []string{"self", "at-pointer", "into-current", "forward-node", "cycle", "name", "beyond-end"}
+
+// belowName: the illegal pointer lands below the name under test (what a bound that is not lowered
+// hop by hop lets through); true by construction for all kinds but "name" and "beyond-end".
+func (c hopCase) belowName() bool {
+	_, start, target := c.wire(true)
+	return target < start
+}
+
+func TestBadPointerLaterHop(t *testing.T) {
+	s := vf.Begin(t, P, "bad-pointer-later-hop")
+	gShort := rapid.SliceOfN(rapid.ByteRange('a', 'z'), 1, 4)
+	labels := func(t *rapid.T, label string) jName {
+		n := jName{}
+		// mostly none: a loop through label-free nodes is the one that never ends
+		for i, k := 0, rapid.SampledFrom([]int{0, 0, 0, 1, 1, 2}).Draw(t, label); i < k; i++ {
+			n = append(n, vf.Hex(gShort.Draw(t, "label")))
+		}
+		return n
+	}
+	vf.Rapid(s, vf.N(8000, 100000), func(t *rapid.T) hopCase {
+		c := hopCase{Kind: rapid.SampledFrom(hopKinds).Draw(t, "kind"), Delta: rapid.IntRange(0, 40).Draw(t, "delta"),
+			Section: rapid.SampledFrom([]string{"answer", "authority", "additional"}).Draw(t, "section"), Lead: rapid.Bool().Draw(t, "lead"),
+			BadPos: rapid.IntRange(0, 5).Draw(t, "badHop")}
+		k := rapid.IntRange(1, 6).Draw(t, "nodes")
+		for i := 0; i < k; i++ {
+			n := hopNode{Labels: labels(t, "nodeLabels"), To: -1}
+			if i > 0 {
+				// mostly the node just before: long walks
+				n.To = i - 1
+				if rapid.IntRange(0, 3).Draw(t, "toKind") == 0 {
+					n.To = rapid.IntRange(-1, i-1).Draw(t, "to")
+				}
+			}
+			c.Nodes = append(c.Nodes, n)
+		}
+		c.Entry = k - 1
+		if rapid.IntRange(0, 3).Draw(t, "entryKind") == 0 {
+			c.Entry = rapid.IntRange(0, k-1).Draw(t, "entry")
+		}
+		c.Prefix = labels(t, "prefixLabels")
+		return c
+	}, checkLaterHop(s), hopCase.belowName)
+}
+
+// TestBadPointerLaterHopSmall enumerates the small structures of the same family: 1..3 nodes chained
+// one to the next (the name under test enters at the last), every node with or without a label, the
+// name under test with or without a label of its own, the illegal pointer at every hop, every kind,
+// three deltas, the three record sections. Among them the two shortest loops below the name under
+// test: A -> A (a node pointing at itself) and A -> B -> A.
+func TestBadPointerLaterHopSmall(t *testing.T) {
+	s := vf.Begin(t, P, "bad-pointer-later-hop-exhaustive")
+	s.SetExhaustive()
+	// a decoder that does not terminate is reported once: every further case of the family would sit
+	// out the watchdog again (and leave another spinning goroutine behind)
+	hung := false
+	chk := checkLaterHop(s)
+	vf.Enum(s, func(yield func(hopCase)) {
+		for k := 1; k <= 3 && !hung; k++ {
+			for mask := 0; mask < 1<<k; mask++ {
+				var nodes []hopNode
+				for i := 0; i < k; i++ {
+					n := hopNode{Labels: jName{}, To: i - 1}
+					if mask>>i&1 == 1 {
+						n.Labels = jName{vf.Hex{byte('a' + i)}}
+					}
+					nodes = append(nodes, n)
+				}
+				for _, prefix := range []jName{{}, {vf.Hex("x")}} {
+					for bad := 0; bad < k; bad++ {
+						for _, kind := range hopKinds {
+							for delta := 0; delta < 3; delta++ {
+								for _, sec := range []string{"answer", "authority", "additional"} {
+									if hung {
+										return
+									}
+									yield(hopCase{Nodes: nodes, Prefix: prefix, Entry: k - 1, BadPos: bad, Kind: kind, Delta: delta, Section: sec, Lead: delta == 1})
+								}
+							}
+						}
+					}
+				}
+			}
+		}
+	}, func(c hopCase) []vf.Finding {
+		fs := chk(c)
+		for _, f := range fs {
+			hung = hung || f.Kind == "does-not-terminate"
+		}
+		return fs
+	}, hopCase.belowName)
 }
 
 // chains of backward pointers of every length 1..40: must decode and terminate
